@@ -18,7 +18,7 @@ func propC07() Property {
 			"R2 (forward-only SequenceReset, per-path traces): NewSeqNo > expected → set; NewSeqNo < expected → reject and no set; equal → nothing. R3 (no double reset): the reset for a received flag is guarded by sentReset = false; sentReset is set true only right after the reset performed for an outgoing Logon, and cleared on connect and after Logon handling. R4 (echo): the reply Logon's reset flag originates from the received ResetSeqNumFlag(141); the flag is only put on a Logon when the argument says so; shouldSendReset requires FIX.4.1+ and both counters at 1. R5 (shared with C11): every constant-tag access addresses the section the parser files the tag in (GapFillFlag read from the wrong section would turn every gap fill into a reset). R6 (no bypass): where a function resets under a ResetOn* option, the option test dominates every return that is not a delegation — no message-dependent early exit ends the exchange before the configured reset. R7: ResetSeqNumFlag(141) of an outgoing Logon is inspected after the application's ToAdmin callback (the application may set it there) and no callback follows the inspection. R8 (shared with C02): emptying the send queue and resetting the store are one critical section. R9 (shared with C16): Reset removes every file the file store opens. R10 (shared with C06): the store is reset for a Logon only after the Logon passed identity and application verification.",
 		NotDecided: "counter values over sequences of events; that both sides end up at the same numbers.",
 		Rules: []RuleDef{
-			{ID: "C07-R1", Desc: "every store reset has a configured or negotiated reason on its caller chain", Min: 5, Run: c07R1},
+			{ID: "C07-R1", Desc: "every store reset has a configured or negotiated reason on its caller chain", Min: 3, Run: c07R1},
 			{ID: "C07-R2", Desc: "SequenceReset moves the expected number forward only", Min: 3, Run: c07R2},
 			{ID: "C07-R3", Desc: "sentReset protocol (no double reset)", Min: 4, Run: c07R3},
 			{ID: "C07-R4", Desc: "reset flag echo and emission", Min: 3, Run: c07R4},
@@ -27,6 +27,8 @@ func propC07() Property {
 			{ID: "C07-R7", Desc: "outgoing ResetSeqNumFlag inspected after the ToAdmin callback", Min: 1, Run: c07R7},
 			{ID: "C07-R8", Desc: "a reset empties the queue and the store in one critical section (= C02-R7)", Min: 1, Run: c02R7},
 			{ID: "C07-R9", Desc: "a reset removes every stored file of the old epoch (= C16-R13)", Min: 2, Run: c16R13},
+			{ID: "C07-R12", Desc: "NextExpectedMsgSeqNum(789) is evaluated only on a Logon without ResetSeqNumFlag", Min: 1, Run: c07R12},
+			{ID: "C07-R11", Desc: "file counters are rewritten in place at fixed width (= C17-R3)", Min: 3, Run: c17R3},
 			{ID: "C07-R10", Desc: "the store is reset for a Logon only after the Logon passed identity and application verification (= C06-R1)", Min: 4, Run: c06R1},
 		},
 	}
